@@ -25,8 +25,9 @@ LAST_DETAIL = None
 def work(k1: str, k2: str, other: int = 0) -> int:
     return 1
 
-K1 = ["a", "x"]
-K2 = ["b", "d"]
+# the two key arguments draw from the SAME two values: keys that differ only in which argument holds which value must stay distinct
+K1 = ["a", "b"]
+K2 = ["b", "a"]
 # configs: (registration mode, on_diff_non_key_args_raise)
 CONFIGS = [("DISABLED", False), ("TASK", False), ("ARGUMENTS", False), ("KEYS", False), ("KEYS", True)]
 NOPS = 9  # 0..7 submit(k1,k2,other) ; 8 claim oldest REGISTERED
@@ -216,7 +217,7 @@ def run(ctx: Ctx) -> None:
     ]
     ctx.bounds = {
         "history": f"symbolic subset of 4 key combinations submitted first + {3 if thorough else 2} free ops over 9 letters "
-                   "(submit k1 in {a,x} x k2 in {b,d} x other in {0,1}; claim oldest REGISTERED)",
+                   "(submit k1 in {a,b} x k2 in {b,a} x other in {0,1}: the same values occur under both key arguments; claim oldest REGISTERED)",
         "values": "3 ops over: submit(a, b, other) with other in {0, False, 0.0, 1, True, 1.0, '1'} (equal for ==, different call arguments) / claim; every mode",
         "modes": "DISABLED, TASK, ARGUMENTS, KEYS(k1,k2) with and without on_diff_non_key_args_raise",
         "spellings": "positional / keyword (reordered) / default omitted, rotating with the submission index",
